@@ -65,6 +65,19 @@ def run(ctx, ck) -> None:
         dims = any(isinstance(n2, ast.Raise) for n2 in ast.walk(init)) and 'len(leaf.shape) >= 2' in ast.unparse(init)
         ck.expect('E3', dims, init, 'blocks with fewer than two dimensions are refused', 'blocks with fewer than 2 dimensions are no longer refused', instance='block rank', nontrivial=False)
 
+    # ------------------------------------------------------------------ E5 the blocks are stored as given
+    if isinstance(init, ast.FunctionDef):
+        from ..paramflow import integrity
+
+        kind, ex = integrity(init, 'blocks', init.args.args[1].arg)
+        if kind == 'identity':
+            ck.ok('E5', init, 'the block arrays are stored as given', instance='blocks stored')
+        elif kind == 'cast':
+            ck.bad('E5', init, f'the constructor casts the blocks before storing them ({show(ex)[:90]}): blocks wider than the cast dtype (complex blocks on a real structure) are silently truncated, so the operator '
+                   'no longer applies einsum(subscripts, blocks, leaf)', instance='blocks stored')
+        else:
+            ck.incomplete('E5', init, f'the blocks are stored as {show(ex)[:80]}', instance='blocks stored')
+
     # ------------------------------------------------------------------ E3 rejections
     from ..terms import raise_paths
 
